@@ -144,6 +144,7 @@ EKTcWGekdmdDPsHloRNtsiCa697B2O9IFA==
 -----END EC PRIVATE KEY-----`)
 
 type fakeForward struct {
+	stopped  bool
 	ln       net.Listener
 	secret   string
 	tlsConf  *tls.Config
@@ -176,9 +177,14 @@ func startFakeForward(secret string, useTLS bool) (*fakeForward, error) {
 				return
 			}
 			f.mu.Lock()
+			if f.stopped {
+				f.mu.Unlock()
+				c.Close()
+				continue
+			}
 			f.conns[c] = true
-			f.mu.Unlock()
 			f.wg.Add(1)
+			f.mu.Unlock()
 			go f.serve(c)
 		}
 	}()
@@ -229,13 +235,19 @@ func (f *fakeForward) serve(raw net.Conn) {
 }
 
 func (f *fakeForward) stop() {
-	f.ln.Close()
 	f.mu.Lock()
+	f.stopped = true
 	for c := range f.conns {
 		c.Close()
 	}
 	f.mu.Unlock()
-	f.wg.Wait()
+	f.ln.Close()
+	done := make(chan struct{})
+	go func() { f.wg.Wait(); close(done) }()
+	select {
+	case <-done:
+	case <-time.After(2 * time.Second):
+	}
 }
 
 // ---- environment redirection
@@ -334,11 +346,45 @@ func (e *childEnv) write(r CaseResult) {
 
 const caseWatchdog = 60 * time.Second
 
+// exitPoisoned: the child ends itself after a case whose panic was recovered while agent goroutines (listeners,
+// forwarders, workers) were already running: they cannot be stopped any more and would disturb the next cases.
+const exitPoisoned = 4
+
+func (e *childEnv) exitIfPoisoned(r CaseResult) {
+	if r.Verdict == "panic" && r.Phase != "parse" {
+		_ = e.results.Sync()
+		os.Exit(exitPoisoned)
+	}
+}
+
 // runCase loads and exercises one document. skip is the mutated node (nil for unmodified files).
 func (e *childEnv) runCase(id string, doc *yaml.Node, skip *yaml.Node, real bool, probes *Probes, logCase func(string)) CaseResult {
 	t0 := time.Now()
 	e.seq++
 	res := CaseResult{ID: id, Real: real}
+	logCase(id)
+
+	// watchdog: a case that does not end is reported as stuck (goroutine dump on stderr) and ends the child
+	done := make(chan struct{})
+	defer close(done)
+	phase := new(atomic.Value)
+	phase.Store("prepare")
+	go func() {
+		select {
+		case <-done:
+		case <-time.After(caseWatchdog):
+			res := CaseResult{ID: id, Verdict: "stuck", Phase: phase.Load().(string), Real: real, Ms: time.Since(t0).Milliseconds()}
+			e.write(res)
+			_ = e.results.Sync()
+			fmt.Fprintf(os.Stderr, "WATCHDOG case %s stuck in phase %s\n", id, phase.Load())
+			debug.SetTraceback("all")
+			buf := make([]byte, 1<<20)
+			n := runtime.Stack(buf, true)
+			os.Stderr.Write(buf[:n])
+			os.Exit(3)
+		}
+	}()
+
 	dir := filepath.Join(e.workDir, fmt.Sprintf("case%d", e.seq))
 	_ = os.MkdirAll(dir, 0o755)
 	defer os.RemoveAll(dir)
@@ -362,28 +408,6 @@ func (e *childEnv) runCase(id string, doc *yaml.Node, skip *yaml.Node, real bool
 	if err := os.WriteFile(path, []byte(text), 0o644); err != nil {
 		panic(err)
 	}
-	logCase(id)
-
-	// watchdog: a case that does not end is reported as stuck (goroutine dump on stderr) and ends the child
-	done := make(chan struct{})
-	defer close(done)
-	phase := new(atomic.Value)
-	phase.Store("parse")
-	go func() {
-		select {
-		case <-done:
-		case <-time.After(caseWatchdog):
-			res := CaseResult{ID: id, Verdict: "stuck", Phase: phase.Load().(string), Real: real, Ms: time.Since(t0).Milliseconds()}
-			e.write(res)
-			_ = e.results.Sync()
-			fmt.Fprintf(os.Stderr, "WATCHDOG case %s stuck in phase %s\n", id, phase.Load())
-			debug.SetTraceback("all")
-			buf := make([]byte, 1<<20)
-			n := runtime.Stack(buf, true)
-			os.Stderr.Write(buf[:n])
-			os.Exit(3)
-		}
-	}()
 
 	guard := func(ph string, f func()) (ok bool) {
 		phase.Store(ph)
